@@ -481,17 +481,40 @@ func runC19(c *Ctx) {
 					}
 				}
 			}
-			if i%16 == 7 {
+			if i%8 == 7 {
 				// a special second (or first) operand: the finite operand's encoding must still not matter
-				sp := r.Pick(0, 1, 2)
+				sp := r.Pick(0, 1, 2, 3)
 				var sb ref.Bits
 				switch sp {
 				case 0:
 					sb = ref.EncodeInf(false)
 				case 1:
 					sb = ref.EncodeInf(true)
-				default:
+				case 2:
 					sb = ref.Bits{Hi: 0x7c00_0000_0000_0000}
+				default:
+					sb = ref.Encode(r.Bool(), new(big.Int), r.Exp())
+				}
+				if r.Bool() {
+					// the finite operand on either side of one (and of minus one), a few digits long, so that its
+					// cohort reaches the 35-digit member: the class decisions against Inf/NaN/0 (|x| < 1, = 1, > 1)
+					// must not depend on the encoding (seed C19-pow-inf-exponent-guard-34-digits)
+					k := r.Range(1, 6)
+					cc := new(big.Int).Set(ref.Pow10(k))
+					dlt := big.NewInt(int64(r.Range(0, 3) * r.Pick(1, 1, 10, 100)))
+					if r.Chance(1, 3) {
+						dlt.Mul(big.NewInt(int64(r.Range(1, 29))), ref.Pow10(r.Intn(k)))
+					}
+					if r.Bool() {
+						cc.Add(cc, dlt)
+					} else {
+						cc.Sub(cc, dlt)
+					}
+					if cc.Sign() <= 0 {
+						cc.SetInt64(1)
+					}
+					x = altEncoding(r, ref.Encode(r.Bool(), cc, -k))
+					j.sh.Cell("gen/special-operand-vs-near-one")
 				}
 				if r.Bool() {
 					y = sb
